@@ -2,6 +2,7 @@ package c05
 
 import (
 	"bytes"
+	"unicode/utf8"
 	"encoding/hex"
 	"encoding/json"
 	"errors"
@@ -499,9 +500,13 @@ func applyStep(s opStep, model map[string]interface{}) event.Option {
 		model["host-addr"] = a.String()
 		return event.HostAddrFrom(a)
 	case "Custom":
-		// key names are ASCII tokens, as every caller in the tree produces (constants,
-		// validated HTTP header / cookie / mail header names); the value is arbitrary
-		k := "x." + hex.EncodeToString([]byte(s.Arg))
+		// key names: any valid UTF-8 (JSON object keys can carry control characters and
+		// non-ASCII text; only invalid UTF-8 cannot survive JSON and no caller produces it);
+		// the value is arbitrary bytes
+		k := "x." + s.Arg
+		if !utf8.ValidString(k) {
+			k = "x." + hex.EncodeToString([]byte(s.Arg))
+		}
 		model[k] = s.Arg
 		return event.Custom(k, s.Arg)
 	case "MergeFrom":
@@ -566,6 +571,24 @@ func checkOps(c opsCase, viaNewWith bool) error {
 	if _, err := serialises(e); err != nil {
 		return err
 	}
+	// an event is serialised by one channel and decorated (token, geo data, further
+	// payloads) before the next one serialises it again: the second serialisation must
+	// show the later stores
+	late := []byte{0xde, 0xad, byte(len(c.Steps))}
+	event.Apply(e, event.Token("late-token"), event.Custom("late.key", len(c.Steps)), event.Payload(late))
+	m2, err := serialises(e)
+	if err != nil {
+		return fmt.Errorf("after storing more keys: %v", err)
+	}
+	if s, _ := m2["token"].(string); s != "late-token" {
+		return fmt.Errorf("second serialisation after Store(token) shows token=%v", m2["token"])
+	}
+	if s, _ := m2["payload-hex"].(string); s != hex.EncodeToString(late) {
+		return fmt.Errorf("second serialisation after a new Payload shows payload-hex=%v, want %x", m2["payload-hex"], late)
+	}
+	if fmt.Sprint(m2["payload-length"]) != "3" || fmt.Sprint(m2["late.key"]) != fmt.Sprint(len(c.Steps)) {
+		return fmt.Errorf("second serialisation is stale: payload-length=%v late.key=%v", m2["payload-length"], m2["late.key"])
+	}
 	return nil
 }
 
@@ -629,7 +652,7 @@ func TestOptionsAgainstModel(t *testing.T) {
 				}
 			} else {
 				s.Op = rapid.SampledFrom(simpleOps).Draw(rt, "op")
-				s.Arg = rapid.SampledFrom([]string{"", "a", "b", "ssh", "\x00\xff", "日本"}).Draw(rt, "arg")
+				s.Arg = rapid.SampledFrom([]string{"", "a", "b", "ssh", "\x00\xff", "日本", "X-\x00", "h\x01\x7f", "tab\tnl\n", "q\"uote\\", "\u2028"}).Draw(rt, "arg")
 				s.Port = rapid.SampledFrom([]int{0, 1, 22, 255, 65535}).Draw(rt, "port")
 				m := map[string]interface{}{}
 				applyStep(s, m)
